@@ -6,6 +6,26 @@ O = 'pdf/src/object/mod.rs'
 IMPL = r'^impl Decoder$'
 
 NOT_EXEMPT = '!self.exempt(id) && old(data)@.len() > 0'
+# AES results: the ISO outcome with the pad checked strictly, or (TOL_PAD_BYTES_UNCHECKED) with only the last byte looked at
+DELIVERS = lambda dec: 'delivers_either(r, %s.iso_decrypt(id, old(data)@), %s.iso_decrypt_pad(id, old(data)@, false))' % (dec, dec)
+
+
+def _pad_helper():
+    """A padding-removal helper next to `Decoder::decrypt`: ANY free fn of crypt.rs of the shape `fn NAME(x: &[u8]) -> Result<&[u8]>`
+    (or `&mut [u8]`), whatever its name. The pinned tree has none (the `cbc` crate unpads): then the item is absent (optional)."""
+    import os, re
+    from vlib import assemble as _asm
+    try:
+        src = _asm.strip_comments(open(os.path.join(_asm.REPO, F), encoding='utf-8').read())
+    except OSError:
+        return None
+    m = re.search(r"^(?:pub(?:\([a-z]+\))? )?fn (\w+)(?:<'\w+>)?\((\w+): &(?:'\w+ )?(mut )?\[u8\]\) -> Result<&(?:'\w+ )?\[u8\]>", src, re.M)
+    return (m.group(1), m.group(2), bool(m.group(3))) if m else None
+
+
+_PH = _pad_helper()
+_PH_NAME, _PH_ARG, _PH_MUT = _PH if _PH else ('strip_padding', 'plain', False)
+_PH_IN = ('old(%s)@' if _PH_MUT else '%s@') % _PH_ARG
 
 # R7 hoists shared by key() and decrypt(); argument expressions stay verbatim (regex back-references)
 HOISTS = [
@@ -16,6 +36,26 @@ UNIT = {
  'name': 'decrypt',
  'doc': 'Decoder::{key, decrypt} against ISO 32000 Algorithm 1 / 1.A; Decoder::{from_password, default} key-size selection and '
         'login plumbing against Table 20/21, Algorithms 6, 7, 2.A (MD5, SHA-2, AES uninterpreted; RC4 = spec fn and lemmas of units/rc4, no RC4 axiom)',
+ # BOUNDED native stand-in (never counted as proved): encrypted documents built from scratch by an independent implementation of
+ # the standard security handler, read back through the public API
+ 'native': {'tests': [
+    {'name': 'encrypted_documents_read_back_plaintext', 'code': 'native_c06_bounded.rs', 'place': 'pdf/tests/verif_c06_bounded.rs',
+     'fn': 'FileOptions::load', 'props': ['C06'], 'tier': 'quick', 'timeout': 900,
+     'bound': '6 handlers (RC4-40 V1/R2, RC4-128 V2/R3, crypt filter /V2 V4/R4, AESV2 V4/R4, AESV3 V5/R5, AESV3 V5/R6 with Algorithm 2.B) '
+              'x 2 password pairs (empty / non-empty user password) x {user, owner} password x /EncryptMetadata {true, false} (V4, V5 only) '
+              'x {xref table with generations 0,1,2 and object number 0x012345; xref stream + object stream} = 80 documents; in each: every '
+              'plaintext length 0..=33 as hex/literal string in a dictionary and in an array, and as stream data via Stream::data and '
+              'PdfStream::raw_data (each read twice), one ASCIIHex-filtered stream, a /Metadata stream (cleartext in the file when '
+              '/EncryptMetadata false), /O and /U of the encryption dictionary; + a wrong password per document. /StrF == /StmF throughout '
+              '(a document whose string filter differs: findings/strf_ignored.md). Not covered: /Perms validation, non-ASCII passwords',
+     'contract': 'every string and every stream reads back equal to the plaintext that was encrypted (Algorithm 1 / 1.A by an independent '
+                 'implementation); cleartext metadata and the strings of the encryption dictionary come back unmodified; a wrong password is InvalidPassword'},
+ ]},
+ 'tolerances': {
+   'TOL_PAD_BYTES_UNCHECKED': 'AES data whose last byte is a possible pad length n (1..=16, at most the data length) but whose last n bytes are not all '
+        'equal to n: no encryptor that follows 7.6.2 produces it, C06 does not say what reading it yields. The `cbc` crate rejects it '
+        '(DecryptionFailure); a reader that looks at the last byte only and drops n bytes is accepted as well. On every well-formed pad the two agree.',
+ },
  'items': {
   'type ObjNr': {'kind': 'decl', 'file': O, 'header': r'^pub type ObjNr\b'},
   'type GenNr': {'kind': 'decl', 'file': O, 'header': r'^pub type GenNr\b'},
@@ -113,9 +153,9 @@ UNIT = {
      'ensures': [
         ('exempt_unchanged', '(self.exempt(id) || old(data)@.len() == 0) ==> (r matches Ok(d) && d@ == old(data)@)'),
         ('alg1_rc4', NOT_EXEMPT + ' && self.method is V2 && self.key_size <= 16 ==> delivers(r, self.iso_decrypt(id, old(data)@))'),
-        ('alg1_aesv2', NOT_EXEMPT + ' && self.method is AESV2 && self.key_size <= 16 ==> delivers(r, self.iso_decrypt(id, old(data)@))'),
-        ('alg1A_aesv3', NOT_EXEMPT + ' && self.method is AESV3 ==> delivers(r, self.iso_decrypt(id, old(data)@))'),
-        ('oversize_key_clamped', NOT_EXEMPT + ' && !(self.method is AESV3) && self.key_size > 16 ==> delivers(r, self.clamped().iso_decrypt(id, old(data)@))'),
+        ('alg1_aesv2', NOT_EXEMPT + ' && self.method is AESV2 && self.key_size <= 16 ==> ' + DELIVERS('self')),
+        ('alg1A_aesv3', NOT_EXEMPT + ' && self.method is AESV3 ==> ' + DELIVERS('self')),
+        ('oversize_key_clamped', NOT_EXEMPT + ' && !(self.method is AESV3) && self.key_size > 16 ==> ' + DELIVERS('self.clamped()')),
      ],
      'rewrites': [
         # R1 ghost: one lemma call right before the buffer is hashed (both arms). The lemma has no `requires` and its
@@ -138,6 +178,25 @@ UNIT = {
          'replace': r'hoist_aes\1_new(\2)', 'count': '*'},
         {'rule': 'R7', 'regex': r'\.decrypt_padded_mut::<Pkcs7>\((\w+)\)\s*\.map_err\(\|_\|\s*PdfError::DecryptionFailure\)',
          'replace': r'.decrypt_padded_mut_pkcs7(\1)', 'count': '*'},
+        # the same call with the padding left in place (a tree that removes the pad itself, see item `pkcs7 helper`)
+        {'rule': 'R7', 'regex': r'\.decrypt_padded_mut::<NoPadding>\((\w+)\)\s*\.map_err\(\|_\|\s*PdfError::DecryptionFailure\)',
+         'replace': r'.decrypt_padded_mut_nopad(\1)', 'count': '*'},
+     ]},
+
+  # OPTIONAL: a padding-removal helper (`fn NAME(x: &[u8]) -> Result<&[u8]>`, located by SHAPE in _pad_helper) that a tree may
+  # have next to Decoder::decrypt. Contract = `pkcs7_unpad` (RFC 5652 6.3 as referenced by 7.6.2): last byte n, 1 <= n <= 16,
+  # n <= len => Ok(first len - n bytes) (n = 16: a whole block of padding, i.e. every plaintext whose length is a multiple of 16);
+  # anything else => Err(DecryptionFailure). Pad bytes other than the last: compared or not (TOL_PAD_BYTES_UNCHECKED).
+  'pkcs7 helper': {'kind': 'fn', 'file': F, 'container': None, 'name': _PH_NAME, 'optional': True, 'props': ['C06'],
+     'ensures': [('pkcs7_pad_removed', 'delivers_either(r, pkcs7_unpad(%s, true), pkcs7_unpad(%s, false))' % (_PH_IN, _PH_IN))],
+     'rewrites': [
+        # R7 / R8 by shape (count '*': whichever of these spellings the helper uses)
+        {'rule': 'R7', 'regex': r'\b(\w+)\.last\(\)', 'replace': r'hoist_last(\1)', 'count': '*'},
+        {'rule': 'R8', 'regex': r'(hoist_last\(\w+\))\.map_or\(([^,()]*), \|&(\w+)\| ([^()]*?)\)',
+         'replace': r'(match \1 { Some(\3__) => { let \3 = *\3__; \4 }, None => \2 })', 'count': '*'},
+        {'rule': 'R7', 'regex': r'\((\w+)\.\.=(\w+)\)\.contains\((&\w+)\)', 'replace': r'hoist_range_incl_contains_usize(\1, \2, \3)', 'count': '*'},
+        {'rule': 'R7', 'regex': r'\((\w+)\.\.(\w+)\)\.contains\((&\w+)\)', 'replace': r'hoist_range_contains_usize(\1, \2, \3)', 'count': '*'},
+        {'rule': 'R7', 'regex': r'&(\w+)\[\.\.([^\[\]]*)\]', 'replace': r'hoist_prefix(\1, \2)', 'count': '*'},
      ]},
  },
 }
